@@ -47,6 +47,10 @@ func (m *MapCodec) Read(r *ReadBuf, p unsafe.Pointer) error {
 
 			// TODO: can we just reuse one val?
 			val := m.valueCodec.New(r)
+			if val == nil {
+				// union and null codecs have no New of their own
+				val = r.Alloc(m.rtype.Elem())
+			}
 			if err := m.valueCodec.Read(r, val); err != nil {
 				return fmt.Errorf("failed to read value for map key %s. %w", key, err)
 			}
